@@ -9,7 +9,7 @@ string); listeners fail; odd return values.
 """
 from .. import apptree, srcgen
 from ..harness import Result
-from ..simfs import PREFIX, Store
+from ..simfs import PREFIX, Store, clear_known_caches, scenario_prefix
 from ..streams import EventLog, SimInputStream, SimOutputStream
 from ..term import strip_ansi
 
@@ -180,8 +180,7 @@ def execute(sc):
     log = EventLog()
     inv = []
     store = Store()
-    Frame._content_cache.clear()
-    ExceptionTrace._FRAME_SNIPPET_CACHE.clear()
+    clear_known_caches()
     old_open = getattr(frame_mod, "open", None)
     frame_mod.open = store.open
 
@@ -214,7 +213,7 @@ def execute(sc):
                    "def compute(exc):\n"
                    "    # the failure happens here\n"
                    "    raise exc\n")
-            path = PREFIX + "handlers/support.py"
+            path = scenario_prefix(sc) + "handlers/support.py"
             g = store.run_module(path, src)
             raiser = g["helper"]
             res.probe("origin_simfile")
@@ -293,8 +292,7 @@ def execute(sc):
         else:
             frame_mod.open = old_open
         store.cleanup()
-        Frame._content_cache.clear()
-        ExceptionTrace._FRAME_SNIPPET_CACHE.clear()
+        clear_known_caches()
     res.events = log.events
     for k, v in store.fault_hits.items():
         res.fault("source_" + k, v)
